@@ -49,3 +49,31 @@ Definition entries_docs : list (str * (pyval -> pyval)) :=
     (lit "roundtrip_extra", ep_roundtrip_extra);
     (lit "load_rpms", ep_load_rpms); (lit "load_modules", ep_load_modules); (lit "load_extra", ep_load_extra);
     (lit "print_json", ep_print_json) ].
+
+(* ---------------- images: build by add calls, dump, load back, dump again *)
+Definition ep_roundtrip_images (v : pyval) : pyval :=
+  match v with
+  | PList [ver; PDict compose; PList pool; PList ops] =>
+      match get_pool O pool with
+      | None => bad_input
+      | Some pl =>
+          let ver := match ver with PNone => current_version | _ => ver end in
+          match version_tuple (lit "common.Header") ver with
+          | Err e => out_err e
+          | Ok vt =>
+              let cells := build (step_images vt pl) [] ops in
+              match dump_images {| im_version := ver; im_compose := compose; im_cells := cells |} with
+              | Err e => out_err e
+              | Ok d => out_ok (PList [PStr (print_json d);
+                                       match load_images d with
+                                       | Err e => out_err e
+                                       | Ok st2 => out_ok (PList [describe_images st2;
+                                                                  out_result (fun d2 => PStr (print_json d2)) (dump_images st2)])
+                                       end])
+              end
+          end
+      end
+  | _ => bad_input
+  end.
+
+Definition entries_docs2 : list (str * (pyval -> pyval)) := [ (lit "roundtrip_images", ep_roundtrip_images) ].
